@@ -85,6 +85,10 @@ void pool_build() {
         FontInfo in; in.name = fi.name;
         auto cm = fi.tables.find(mktag("cmap")); if (cm != fi.tables.end()) cmap_cps(cm->second, in.cps);
         in.loadable = fi.tables.count(mktag("Silf")) != 0;
+        {   // pseudo-glyph map: characters the font handles although the cmap does not map them
+            auto sf = fi.tables.find(mktag("Silf"));
+            if (sf != fi.tables.end()) { std::vector<Range> rg; silf_ranges(sf->second, rg); for (auto &g : rg) if (!strcmp(g.what, "silf-pseudo") && g.lo + 8 <= sf->second.size()) { unsigned np = be16(&sf->second[g.lo]); for (unsigned k = 0; k < np && g.lo + 8 + 6 * size_t(k) + 6 <= sf->second.size(); ++k) { u32 uid = be32(&sf->second[g.lo + 8 + 6 * k]); if (uid && uid < 0x110000 && !(uid >= 0xD800 && uid <= 0xDFFF)) { in.cps.push_back(uid); in.pseudo.push_back(uid); } } } }
+        }
         in.has_just = font_has_just(fi);
         in.rtl = fi.name.find("Scheherazade") == 0 || fi.name.find("Awami") == 0;
         in.big = fi.name.find("Awami") == 0;
@@ -115,7 +119,8 @@ std::vector<u32> sample_cps(Rng &r, const std::string &font, size_t n) {
     static const u32 edges[] = {0, 0x20, 0x7F, 0xFF, 0x100, 0x1FF, 0x200, 0xFFFE, 0xFFFF, 0x10000, 0x10001, 0x1D510, 0x10FFFF, 0x110000, 0xD800, 0xDFFF, 0xE000, 0xFFFFFFFF, 0x7FFFFFFF};
     for (size_t i = 0; i < n; ++i) {
         u32 k = r.below(10);
-        if (k < 5 && !in.cps.empty()) { u32 c = r.pick(in.cps); u32 j = r.below(4); v.push_back(j == 0 ? c - 1 : j == 1 ? c + 1 : c); }
+        if (k == 0 && !in.pseudo.empty()) v.push_back(r.pick(in.pseudo));
+        else if (k < 5 && !in.cps.empty()) { u32 c = r.pick(in.cps); u32 j = r.below(4); v.push_back(j == 0 ? c - 1 : j == 1 ? c + 1 : c); }
         else if (k < 7) v.push_back(edges[r.below(sizeof edges / sizeof edges[0])]);
         else if (k < 9) v.push_back((r.below(0x1100) << 8) + (r.chance(1, 2) ? 0xFF : 0) + r.below(2));
         else v.push_back(u32(r.next()) & 0x1FFFFF);
@@ -159,6 +164,7 @@ std::vector<u32> gen_text(Rng &r, const std::string &font, size_t maxlen, bool a
             t.insert(t.begin() + long(pos), it);
         }
     }
+    if (!in.pseudo.empty() && r.chance(1, 5)) { unsigned n = 1 + r.below(3); for (unsigned q = 0; q < n; ++q) t.insert(t.begin() + long(r.below(u32(t.size() + 1))), r.pick(in.pseudo)); }
     if (adversarial && r.chance(1, 8)) t.push_back(ILL | ILL_TAIL | r.below(0x400000));
     for (auto &c : t) c = sanitize_item(c);
     return t;
@@ -190,6 +196,14 @@ Fault gen_store_fault(Rng &r, const FontImage &fi) {
     const Bytes &t = fi.tables.find(tag)->second;
     u32 k = r.below(100);
     f.nth = r.chance(4, 5) ? 0 : (r.chance(1, 2) ? -1 : 1);
+    if ((f.tag == "Silf" || f.tag == "Glat") && t.size() >= 16 && (be32(&t[4]) >> 27) == 1 && be32(&t[0]) >= (f.tag == "Silf" ? 0x00050000u : 0x00030000u) && r.chance(1, 3)) {
+        // compressed table: rot aimed at the announced decompressed size (27 bits) and the scheme bits
+        u32 real = be32(&t[4]) & 0x07FFFFFF; static const u32 tiny[] = {0, 1, 2, 3, 4, 5, 7, 8, 12, 13};
+        u32 c = r.below(6); u32 sz = c == 0 ? tiny[r.below(10)] : c == 1 ? real - 1 - r.below(8) : c == 2 ? real + 1 + r.below(64) : c == 3 ? 0x07FFFFFF : c == 4 ? real / 2 : tiny[r.below(4)];
+        u32 hdr = ((r.chance(1, 8) ? r.below(32) : 1u) << 27) | (sz & 0x07FFFFFF);
+        f.kind = "SETBYTES"; f.a = {4, i64(hdr >> 24), 5, i64((hdr >> 16) & 0xFF), 6, i64((hdr >> 8) & 0xFF), 7, i64(hdr & 0xFF)};
+        return f;
+    }
     if (k < 55) {
         f.kind = r.chance(3, 4) ? "BITROT" : "SETBYTES";
         unsigned n = 1 + (r.chance(1, 3) ? r.below(3) : 0);
@@ -262,6 +276,21 @@ Fault gen_code_fault(Rng &r, const FontImage &fi) {
             else { u32 c = r.below(6); nv = c == 0 ? old + 1 : c == 1 ? old - 1 : c == 2 ? 0 : c == 3 ? 255 : c == 4 ? 1 + r.below(4) : r.below(256); }
             f.a.push_back(i64(in.off + q)); f.a.push_back(i64(nv & 0xFF));
         } else { f.a.push_back(i64(in.off)); f.a.push_back(i64(ZERO_ACT[r.below(sizeof ZERO_ACT / sizeof ZERO_ACT[0])])); }
+    }
+    return f;
+}
+
+// PSEUDOROT: one pseudo-map record's Unicode value overwritten with another record's (duplicate keys: lookup order matters)
+Fault gen_pseudo_fault(Rng &r, const FontImage &fi) {
+    Fault f; f.kind = "SETBYTES"; f.tag = "Silf"; f.nth = -1;
+    auto it = fi.tables.find(mktag("Silf")); if (it == fi.tables.end()) return f;
+    const Bytes &t = it->second; std::vector<Range> rg; silf_ranges(t, rg);
+    for (auto &g : rg) if (!strcmp(g.what, "silf-pseudo") && g.lo + 8 <= t.size()) {
+        unsigned np = be16(&t[g.lo]); if (np < 2 || g.lo + 8 + 6 * size_t(np) > t.size()) break;
+        unsigned i = r.below(np), j = r.below(np); if (i == j) j = (i + 1) % np;
+        size_t src = g.lo + 8 + 6 * size_t(i), dst = g.lo + 8 + 6 * size_t(j);
+        for (int q = 0; q < 4; ++q) { f.a.push_back(i64(dst + size_t(q))); f.a.push_back(t[src + size_t(q)]); }
+        break;
     }
     return f;
 }
